@@ -20,23 +20,24 @@ func (m *Machine) Run(t *rapid.T, weights map[string]int, minSteps, maxSteps int
 		return Commit
 	}
 	ops := map[string]func(){
-		"next":         func() { m.OpNext(t, fate()) },
-		"extend":       func() { m.OpExtend(t) },
-		"lookup":       func() { m.OpLookup(t) },
-		"derivePath":   func() { m.OpDerivePath(t) },
-		"deriveBurst":  func() { m.OpDeriveBurst(t) },
-		"markUsed":     func() { m.OpMarkUsed(t) },
-		"lock":         func() { m.OpLock(t) },
-		"unlock":       func() { m.OpUnlock(t) },
-		"changePass":   func() { m.OpChangePass(t) },
-		"newAccount":   func() { m.OpNewAccount(t, fate()) },
-		"newWOAcct":    func() { m.OpNewWatchOnlyAccount(t, fate()) },
-		"rename":       func() { m.OpRename(t) },
-		"importKey":    func() { m.OpImportKey(t) },
-		"importScript": func() { m.OpImportScript(t) },
-		"importPubKey": func() { m.OpImportPubKey(t) },
-		"setSynced":    func() { m.OpSetSyncedTo(t, fate()) },
-		"newScope":     func() { m.OpNewScope(t) },
+		"next":            func() { m.OpNext(t, fate()) },
+		"extend":          func() { m.OpExtend(t) },
+		"lookup":          func() { m.OpLookup(t) },
+		"derivePath":      func() { m.OpDerivePath(t) },
+		"deriveBurst":     func() { m.OpDeriveBurst(t) },
+		"markUsed":        func() { m.OpMarkUsed(t) },
+		"lock":            func() { m.OpLock(t) },
+		"unlock":          func() { m.OpUnlock(t) },
+		"changePass":      func() { m.OpChangePass(t) },
+		"changePassFault": func() { m.OpChangePassFault(t) },
+		"newAccount":      func() { m.OpNewAccount(t, fate()) },
+		"newWOAcct":       func() { m.OpNewWatchOnlyAccount(t, fate()) },
+		"rename":          func() { m.OpRename(t) },
+		"importKey":       func() { m.OpImportKey(t) },
+		"importScript":    func() { m.OpImportScript(t) },
+		"importPubKey":    func() { m.OpImportPubKey(t) },
+		"setSynced":       func() { m.OpSetSyncedTo(t, fate()) },
+		"newScope":        func() { m.OpNewScope(t) },
 		"convert": func() {
 			// conversion to watching-only happens at most once per history
 			if !m.WatchOnly {
